@@ -50,3 +50,13 @@ Theorem C06_permanent : forall c acts1 acts2 n t k,
   exists t', find_trial n (w_trials (run c (acts1 ++ acts2))) = Some t' /\ t_is t' k = true.
 Proof. exact terminal_permanent. Qed.
 Print Assumptions C06_permanent.
+
+(* Exclusivity and "Succeeded needs a value" over runs: in every reachable state, a Succeeded trial is not Failed,
+   not MetricsUnavailable, not EarlyStopped, and its stored observation has an objective value. *)
+Theorem C06_exclusive : forall c acts t,
+  valid_cfg c -> no_teardown acts -> In t (w_trials (run c acts)) ->
+  has_cond (t_conds t) TSucceeded = true ->
+  has_cond (t_conds t) TFailed = false /\ has_cond (t_conds t) TMetricsUnavailable = false /\
+  has_cond (t_conds t) TEarlyStopped = false /\ obs_available (t_obs t) = true.
+Proof. exact trials_good. Qed.
+Print Assumptions C06_exclusive.
